@@ -15,7 +15,9 @@ RULE = ("every weighted complete graph on n+1 nodes (all weak edge orderings for
         "n-subset (seed-chosen index order, every labeling with >=2 classes), predict the "
         "remaining node - this ranges over all fitted forests x all query distance vectors "
         "over the alphabet; feature mode: every lattice point sequence as training set, every "
-        "lattice point, midpoint and a far point as one query batch; SupervisedOPF and "
+        "lattice point, midpoint and a far point as one query batch; two matrix-fed queries in one batch "
+        "(every 5-node graph over {0, w}, every pair of query nodes, both orders: the query x query "
+        "entry is never mentioned by the rule and ranges over zero / non-zero); SupervisedOPF and "
         "SemiSupervisedOPF; the returned label must belong to the label set of the exhaustive "
         "minimisers computed from the model's own fitted costs; non-trivial = the early exit "
         "can skip at least one sample (some cost >= optimum) or several samples tie for the "
@@ -30,7 +32,7 @@ THOROUGH_METRICS = c01.THOROUGH_METRICS
 
 def bounds(tier):
     b = {"pre_computed": ["WO(4): 3 train + 1 query x L(3)", "G(4,3,zero): 3+1 x L(3)",
-                          "G(5,2): 4+1 x L(4)", "semi: G(5,2) 3 labeled + 1 unlabeled + 1 query"],
+                          "G(5,2): 4+1 x L(4)", "joint: G(5,2,zero) 3 train + 2 queries in one batch, both orders x L(3)", "semi: G(5,2) 3 labeled + 1 unlabeled + 1 query"],
          "features": ["P(3,{0,1,2}^2) x L(3), P(4,{0..3}) x L(4) x 26/8 queries x %s" % QUICK_METRICS]}
     if tier == "thorough":
         b["pre_computed"] += ["G(5,3,zero): 4+1 x L(4)", "G(6,2): 5+1 x L(5)"]
@@ -51,6 +53,11 @@ def plan(tier, seed):
     # prototypes and a non-prototype at cost 0 that leaves the queue before one of them)
     for a, b in E.chunks(E.n_graphs(5, 3), 400):
         shards.append(("g", 5, 3, True, a, b))
+    # two queries in ONE batch: every 5-node graph over {0, w} (so the query x query entry, which the
+    # rule never mentions, and query-training entries range over zero and non-zero), every choice of
+    # the two query nodes, both batch orders
+    for a, b in E.chunks(E.n_graphs(5, 2), 64):
+        shards.append(("joint", 5, 2, True, a, b))
     # classifiers obtained by other routes than fit(): learn() (all RNG answers), and save/load into
     # an object constructed with a different metric
     for pi in range(24):
@@ -137,6 +144,20 @@ def programs(shard, seed):
                     lab[j] = 1
                     yield {"model": "SupervisedOPF", "mode": "pre", "W": Wl, "I_train": train,
                            "labels": list(E.rename_classes(tuple(lab), seed)), "batches": [[q]]}
+        return
+    if kind == "joint":
+        import itertools
+        _, n1, m, zero, a, b = shard
+        table = E.value_table(seed, m, zero=zero)
+        labs = E.labelings(n1 - 2)
+        for gi in range(a, b):
+            Wl = E.matrix_from_ranks(n1, E.graph_ranks(n1, m, gi), table).tolist()
+            for q1, q2 in itertools.combinations(range(n1), 2):
+                train = order([i for i in range(n1) if i not in (q1, q2)], seed)
+                for lab in labs:
+                    yield {"model": "SupervisedOPF", "mode": "pre", "W": Wl, "I_train": train,
+                           "labels": list(E.rename_classes(lab, seed)),
+                           "batches": [[q1, q2], [q2, q1]]}
         return
     if kind in ("wo", "g", "semi", "gt"):
         if kind == "gt":
